@@ -259,6 +259,9 @@ Proof.
   assert (Kc : forall a, kq a (if eff_cancelled a (g_scope (groups a g)) then a
                                else scope_cancel a (g_scope (groups a g)) false)).
   { intros a. destruct (eff_cancelled a _); [apply kq_refl|apply kq_scope_cancel]. }
+  assert (Kc2 : forall a, kq a (if s_cancelled (scopes a (g_scope (groups a g))) then a
+                                else scope_cancel a (g_scope (groups a g)) false)).
+  { intros a. destruct (s_cancelled _); [apply kq_refl|apply kq_scope_cancel]. }
   assert (Kx : forall e, kq s4 (upd_group s4 g (fun x => gr_excs (g_excs x ++ [(t, e)]) x))) by (intros e; apply kq_upd_group).
   assert (Kf : forall f v, kq s4 (fut_complete s4 f v)) by (intros f v; apply kq_kframe, kframe_fut_complete).
   eapply kq_trans; [exact K4|].
@@ -268,17 +271,17 @@ Proof.
   - destruct (k_startfut (tasks s t)) as [f|].
     + destruct (f_st (futs s4 f)).
       * apply Kf.
-      * destruct (is_cancel e); [apply Kc|]. eapply kq_trans; [apply Kx|apply Kc].
-      * destruct (is_cancel e); [apply Kc|]. eapply kq_trans; [apply Kx|apply Kc].
-      * destruct (is_cancel e); [apply kq_refl|]. eapply kq_trans; [apply Kx|apply Kc].
-    + destruct (is_cancel e); [apply Kc|]. eapply kq_trans; [apply Kx|apply Kc].
+      * destruct (is_cancel e); [apply Kc|]. eapply kq_trans; [apply Kx|apply Kc2].
+      * destruct (is_cancel e); [apply Kc|]. eapply kq_trans; [apply Kx|apply Kc2].
+      * destruct (is_cancel e); [apply kq_refl|]. eapply kq_trans; [apply Kx|apply Kc2].
+    + destruct (is_cancel e); [apply Kc|]. eapply kq_trans; [apply Kx|apply Kc2].
   - destruct (k_startfut (tasks s t)) as [f|].
     + destruct (f_st (futs s4 f)).
       * apply Kf.
-      * destruct (is_cancel e); [apply Kc|]. eapply kq_trans; [apply Kx|apply Kc].
-      * destruct (is_cancel e); [apply Kc|]. eapply kq_trans; [apply Kx|apply Kc].
-      * destruct (is_cancel e); [apply kq_refl|]. eapply kq_trans; [apply Kx|apply Kc].
-    + destruct (is_cancel e); [apply Kc|]. eapply kq_trans; [apply Kx|apply Kc].
+      * destruct (is_cancel e); [apply Kc|]. eapply kq_trans; [apply Kx|apply Kc2].
+      * destruct (is_cancel e); [apply Kc|]. eapply kq_trans; [apply Kx|apply Kc2].
+      * destruct (is_cancel e); [apply kq_refl|]. eapply kq_trans; [apply Kx|apply Kc2].
+    + destruct (is_cancel e); [apply Kc|]. eapply kq_trans; [apply Kx|apply Kc2].
   - destruct (k_startfut (tasks s t)) as [f|]; [|apply kq_refl].
     destruct (f_st (futs s4 f)); try apply kq_refl. apply Kf.
 Qed.
